@@ -180,6 +180,36 @@ Section P.
     destruct M as [M|M]; [apply IH; exact M | right; apply ugrun_executed_final; exact M].
   Qed.
 
+  (* validation returns true at most once per id -- along histories with upgrades *)
+  Definition uvalidates_true (g : gw) (o : gop + gupg) (k : bytes * bytes) : bool :=
+    match o with inl o' => validates_true H g o' k | inr _ => false end.
+  Fixpoint ucount_true (g : gw) (ops : list (gop + gupg)) (k : bytes * bytes) : nat :=
+    match ops with
+    | [] => 0
+    | o :: r => (if uvalidates_true g o k then 1 else 0) + ucount_true (fst (ugstep H verify g o)) r k
+    end.
+
+  Lemma ucount_true_executed g ops k : mst g k = Some MExecuted -> ucount_true g ops k = 0%nat.
+  Proof.
+    revert g; induction ops as [|o r IH]; intros g E; [reflexivity|].
+    cbn [ucount_true].
+    assert (uvalidates_true g o k = false) as ->.
+    { destruct o as [o|u]; [|reflexivity]. cbn [uvalidates_true]. apply (executed_never_validates H verify). exact E. }
+    rewrite IH; [reflexivity|].
+    pose proof (ugstep_mono g o k) as M. unfold step_mono_at in M. rewrite E in M. exact M.
+  Qed.
+
+  Theorem uvalidate_at_most_once g ops k : (ucount_true g ops k <= 1)%nat.
+  Proof.
+    revert g; induction ops as [|o r IH]; intros g; [cbn; lia|].
+    cbn [ucount_true]. destruct (uvalidates_true g o k) eqn:V.
+    - destruct o as [o|u]; [|discriminate]. cbn [uvalidates_true] in V.
+      apply (validates_true_executes H verify) in V as [E _].
+      assert (E' : mst (fst (ugstep H verify g (inl o))) k = Some MExecuted) by exact E.
+      rewrite (ucount_true_executed _ r k E'). lia.
+    - specialize (IH (fst (ugstep H verify g o))). lia.
+  Qed.
+
   (* an upgrade never creates an approval: a message that is not known before an upgrade is not known after it *)
   Theorem upgrade_approves_nothing g c op srs k : mst (fst (ugstep H verify g (inr (GUpgrade c op srs)))) k = mst g k.
   Proof.
